@@ -117,6 +117,10 @@ func run(sc scenario, choose vs.Chooser, traceOn bool) (*observation, *vs.Sched,
 			ctx, cancel = vs.WithCancel(context.Background())
 		}
 		defer cancel()
+		if sc.Cancel == "before-call" {
+			ob.cancelAt, ob.cancelled = vs.Elapsed(), true
+			cancel()
+		}
 		// client
 		switch sc.Hello {
 		case "buffered":
@@ -232,6 +236,8 @@ func monitor(sc scenario, ob *observation, s *vs.Sched, t *vnet.Conn) (key, what
 	completeAt := map[string]time.Duration{"buffered": 0, "late": 1 * unit, "two-fragments": 2 * unit, "two-records": 2 * unit}[sc.Hello]
 	ctxEnds, ctxEndAt := false, time.Duration(0)
 	switch sc.Cancel {
+	case "before-call":
+		ctxEnds, ctxEndAt = true, 0
 	case "t0", "t1", "t3":
 		ctxEnds, ctxEndAt = true, map[string]time.Duration{"t0": 0, "t1": unit, "t3": 3 * unit}[sc.Cancel]
 	case "deadline2":
@@ -330,6 +336,12 @@ func scenarios() []scenario {
 			if (never || h == "two-fragments") && (c == "t1" || c == "deadline2" || c == "t0") {
 				out = append(out, scenario{Hello: h, Cancel: c, Keys: true, BlockedWrites: true})
 			}
+		}
+	}
+	// the context is already over when NewConn is called (the caller cancelled it, or a deadline passed, beforehand)
+	for _, h := range []string{"buffered", "never", "first-record-only", "bad-record"} {
+		for _, blocked := range []bool{false, true} {
+			out = append(out, scenario{Hello: h, Cancel: "before-call", Keys: true, BlockedWrites: blocked})
 		}
 	}
 	// a first record that is refused outright, with a client that reads the alert or never does
@@ -483,7 +495,7 @@ func Run(r *ev.Run, replay string) {
 		return
 	}
 	b := bound(r.Tier)
-	r.Rule(fmt.Sprintf("E3 stateless exploration of the real NewConn (sources rewritten into scheduler shims at check time) in virtual time: scenarios = hello {already buffered, arriving at t=1, in two fragments at t=0 and t=2, in two TLS records at t=0 and t=2, only the first of two records, never, a complete record that is not a handshake record (refused; the alert is written to a client that reads or never reads)} x context {never ends, cancelled by another thread at t=0/1/3, cancelled by the caller right after NewConn returned, deadline at t=2, deadline at t=5 cancelled at t=1} x keys {yes,no} x {plain use, HelloRetryRequest + second hello (in one record, or in two records cut after 3 / 100 bytes) after the return, caller's own transport deadline set before the call}; threads = caller (NewConn, then Read/Write on the result), canceller, client, and the watcher NewConn spawns; ALL schedules with at most %d deviations (preemption / non-canonical thread pick, non-first ready select case, timer order). Monitors: NewConn fails only if the context ended before the hello was complete and then no later than that instant; after a successful return no deadline call starts, no deadline is left set (a deadline the caller had set before is still exactly that), and the caller's I/O succeeds. distinct = distinct scenarios", b))
+	r.Rule(fmt.Sprintf("E3 stateless exploration of the real NewConn (sources rewritten into scheduler shims at check time) in virtual time: scenarios = hello {already buffered, arriving at t=1, in two fragments at t=0 and t=2, in two TLS records at t=0 and t=2, only the first of two records, never, a complete record that is not a handshake record (refused; the alert is written to a client that reads or never reads)} x context {never ends, already cancelled before the call, cancelled by another thread at t=0/1/3, cancelled by the caller right after NewConn returned, deadline at t=2, deadline at t=5 cancelled at t=1} x keys {yes,no} x {plain use, HelloRetryRequest + second hello (in one record, or in two records cut after 3 / 100 bytes) after the return, caller's own transport deadline set before the call}; threads = caller (NewConn, then Read/Write on the result), canceller, client, and the watcher NewConn spawns; ALL schedules with at most %d deviations (preemption / non-canonical thread pick, non-first ready select case, timer order). Monitors: NewConn fails only if the context ended before the hello was complete and then no later than that instant; after a successful return no deadline call starts, no deadline is left set (a deadline the caller had set before is still exactly that), and the caller's I/O succeeds. distinct = distinct scenarios", b))
 	r.Assume("computation takes zero virtual time; sequentially consistent memory at synchronisation granularity", "the transport is a scheduler-aware fake whose Read honours deadlines")
 	explore(r, scenarios(), b, "c10")
 }
